@@ -199,6 +199,7 @@ class Contract:
     no_body: bool = False             # do not verify the body (trusted=True required)
     self_exact: str | None = None     # for __init__: verify the body for instances whose class is a subclass of the owner
     shards: int = 1                   # split the discharge of this function's obligations over several worker processes
+    ext_total: bool = False           # third-party calls (pyvis) are assumed not to raise beyond their documented AssertionError
     oracle_op: bool = False           # run time: not evaluated by the monitor (existential ghosts / registration only); an explorer
                                       # operation compares the function with the property statement instead
 
